@@ -37,6 +37,51 @@ pub fn intersect<S: Src>(s: &mut S, bits: u32, max_stride: u64) {
     }
 }
 
+/// Arbitrary well-formed interval of width `bits` with the given *concrete* stride (0 = singleton).
+fn any_iv_with_stride<S: Src>(s: &mut S, bits: u32, stride: u64) -> crate::c02::IV {
+    let st = sext(s.uw(bits), bits);
+    if stride == 0 {
+        return crate::c02::IV { s: st, e: st, stride: 0, bits };
+    }
+    let en = sext(s.uw(bits), bits);
+    s.assume(st < en);
+    s.assume(crate::c02::umod(en.wrapping_sub(st) as u64, stride, bits) == 0);
+    crate::c02::IV { s: st, e: en, stride, bits }
+}
+
+/// Interval::signed_intersect for one row of concrete stride pairs (sa, sb_min..=sb_max): with concrete strides the extended
+/// Euclid, the gcd and the lcm are constants for the solver; start, end and the member stay fully symbolic.
+pub fn intersect_row<S: Src>(s: &mut S, bits: u32, sa: u64, sb_min: u64, sb_max: u64) {
+    let mut sb = sb_min;
+    while sb <= sb_max {
+        let a = any_iv_with_stride(s, bits, sa);
+        let b = any_iv_with_stride(s, bits, sb);
+        let v = sext(s.uw(bits), bits);
+        s.note(&|| format!("A=[{},{}]/{} B=[{},{}]/{} v={} ({} bits)", a.s, a.e, a.stride, b.s, b.e, b.stride, v, bits));
+        let both = ref_contains(&a, v) && ref_contains(&b, v);
+        match to_interval(&a).signed_intersect(&to_interval(&b)) {
+            Ok(r) => {
+                match read_back(s, &r, bits) {
+                    None => chk!(s, false, "C04 intersect: result interval has the wrong width"),
+                    Some(m) => {
+                        chk!(s, wf_iv(&m), "C04 intersect: result interval is not well-formed");
+                        if both {
+                            chk!(s, ref_contains(&m, v), "C04 intersect: a common member of both intervals was removed");
+                        }
+                    }
+                }
+                std::mem::forget(r);
+            }
+            Err(e) => {
+                std::mem::forget(e);
+                chk!(s, !both, "C04 intersect: reported empty although both intervals share a member");
+            }
+        }
+        sb += 1;
+    }
+    cov!(s, true, "all stride pairs of the row executed");
+}
+
 /// IntervalDomain::add_not_equal_bound without hints (the one refinement that does not round the bound through i128 arithmetic first).
 pub fn not_equal<S: Src>(s: &mut S, bits: u32, max_stride: u64) {
     let a = any_iv(s, bits, max_stride);
@@ -65,7 +110,39 @@ pub fn not_equal<S: Src>(s: &mut S, bits: u32, max_stride: u64) {
 }
 
 crate::harnesses! {
-    // thorough tier only: the i128 residue-class arithmetic makes these proofs long (measured: > 600 s each under load)
-    c04_intersect_8_s15[16] => intersect(8, 15);
-    c04_intersect_8_s3[16] => intersect(8, 3);
+    // quick: four stride pairs (gcd > 1 twice, coprime, singleton operand); bases, ends and the member are symbolic
+    @quick c04_pair_8_8_10[16] => intersect_row(8, 8, 10, 10);
+    @quick c04_pair_8_6_4[16] => intersect_row(8, 6, 4, 4);
+    @quick c04_pair_8_5_3[16] => intersect_row(8, 5, 3, 3);
+    @quick c04_pair_8_7_0[16] => intersect_row(8, 7, 0, 0);
+    // thorough: every stride pair (sa, sb) in 0..=12 x 0..=12, one harness per half row
+    c04_row_8_0_lo[16] => intersect_row(8, 0, 0, 6);
+    c04_row_8_0_hi[16] => intersect_row(8, 0, 7, 12);
+    c04_row_8_1_lo[16] => intersect_row(8, 1, 0, 6);
+    c04_row_8_1_hi[16] => intersect_row(8, 1, 7, 12);
+    c04_row_8_2_lo[16] => intersect_row(8, 2, 0, 6);
+    c04_row_8_2_hi[16] => intersect_row(8, 2, 7, 12);
+    c04_row_8_3_lo[16] => intersect_row(8, 3, 0, 6);
+    c04_row_8_3_hi[16] => intersect_row(8, 3, 7, 12);
+    c04_row_8_4_lo[16] => intersect_row(8, 4, 0, 6);
+    c04_row_8_4_hi[16] => intersect_row(8, 4, 7, 12);
+    c04_row_8_5_lo[16] => intersect_row(8, 5, 0, 6);
+    c04_row_8_5_hi[16] => intersect_row(8, 5, 7, 12);
+    c04_row_8_6_lo[16] => intersect_row(8, 6, 0, 6);
+    c04_row_8_6_hi[16] => intersect_row(8, 6, 7, 12);
+    c04_row_8_7_lo[16] => intersect_row(8, 7, 0, 6);
+    c04_row_8_7_hi[16] => intersect_row(8, 7, 7, 12);
+    c04_row_8_8_lo[16] => intersect_row(8, 8, 0, 6);
+    c04_row_8_8_hi[16] => intersect_row(8, 8, 7, 12);
+    c04_row_8_9_lo[16] => intersect_row(8, 9, 0, 6);
+    c04_row_8_9_hi[16] => intersect_row(8, 9, 7, 12);
+    c04_row_8_10_lo[16] => intersect_row(8, 10, 0, 6);
+    c04_row_8_10_hi[16] => intersect_row(8, 10, 7, 12);
+    c04_row_8_11_lo[16] => intersect_row(8, 11, 0, 6);
+    c04_row_8_11_hi[16] => intersect_row(8, 11, 7, 12);
+    c04_row_8_12_lo[16] => intersect_row(8, 12, 0, 6);
+    c04_row_8_12_hi[16] => intersect_row(8, 12, 7, 12);
+    // fully symbolic strides: the i128 residue-class arithmetic with symbolic divisors makes these proofs very long
+    @stretch c04_intersect_8_s15[16] => intersect(8, 15);
+    @stretch c04_intersect_8_s3[16] => intersect(8, 3);
 }
